@@ -24,6 +24,8 @@ def tla(v):
         return _s(v)
     if isinstance(v, (list, tuple)):
         return '<<' + ', '.join(tla(x) for x in v) + '>>'
+    if isinstance(v, dict) and not v:
+        return '<<>>'
     if isinstance(v, dict):
         return '[' + ', '.join('%s |-> %s' % (k, tla(x)) for k, x in sorted(v.items())) + ']'
     raise TypeError(v)
@@ -147,7 +149,7 @@ def _run(wd, part, timeout):
     return int(m.group(1)), int(m.group(2)), res.distinct
 
 
-def record_repo_tests(out_path, files, repo, timeout=1800):
+def record_repo_tests(out_path, files, repo, timeout=3000, want_collections=False):
     """Run some of the repository's own tests under the tracer (in a subprocess) and return the traces."""
     root = os.path.dirname(os.path.dirname(os.path.abspath(__file__)))
     env = dict(os.environ, GLUE_VERIF_TRACE='1', GLUE_VERIF_TRACE_OUT=out_path, PYTHONPATH=root + os.pathsep + repo, MPLBACKEND='Agg')
@@ -157,7 +159,14 @@ def record_repo_tests(out_path, files, repo, timeout=1800):
     if not os.path.exists(out_path):
         raise RuntimeError('tracer produced no output:\n' + tail)
     with open(out_path) as f:
-        return json.load(f), tail
+        hub = json.load(f)
+    coll = []
+    if os.path.exists(out_path + '.coll'):
+        with open(out_path + '.coll') as f:
+            coll = json.load(f)
+    if want_collections:
+        return hub, coll, tail
+    return hub, tail
 
 
 def record_driver(out_path, first, count, nops, repo, timeout=1800):
